@@ -88,11 +88,13 @@ def corrupt_event(ev, rnd):
 def trace_to_case(rej):
     """A Gen_Builtins-format history reproducing a rejected recorded trace up to the rejected call (the calls
     before it with what was observed, the rejected one with what the specification expects)."""
-    tr = rej['trace']
-    if not tr or tr[0].get('ev') != 'reset':
+    tr = [e for e in rej['trace'][:rej['pos'] + 1]]
+    info = rej['info'] or {}
+    if not tr or 's0' not in info:
         return None
+    last = len(tr) - 1
     steps = []
-    for i, ev in enumerate(tr[1:rej['pos'] + 1], start=1):
+    for i, ev in enumerate(tr):
         a = ev['act']
         act = dict(op=a['op'])
         for k in ('m', 'n', 'x', 'pat', 'repl', 's'):
@@ -102,13 +104,13 @@ def trace_to_case(rej):
             act['re'] = a['text']
         if a['op'] == 'split':
             act['sepk'], act['sep'] = a['sep']['k'], a['text']
-        if i < rej['pos']:
+        if i < last:
             o = ev['obs']
         else:
-            o = rej['info']['expected']
+            o = info['expected']
         obs = dict(ret=o['ret'], rstart=o['rstart'], rlength=o['rlength'], t=o['t'], arr=o['arr'])
         steps.append(dict(act=act, obs=obs, open=False, ms=None, chg=True))
-    return dict(fam='builtins-trace', mode=tr[0]['mode'], s=tr[0]['s'], steps=steps)
+    return dict(fam='builtins-trace', mode=info['mode'], s=info['s0'], steps=steps)
 
 
 def run(ctx):
@@ -163,7 +165,7 @@ def run(ctx):
     # 3. code -> spec: random histories on subjects of up to 12 characters, validated by TLC.  Two logs: one whose
     #    numeric arguments stay inside the int64 range (so that every trace is followed to its end even while the
     #    overflow findings are present), one with the full numeric classes.
-    ncore, nfull = (300, 120) if q else (5000, 1500)
+    ncore, nfull = (200, 80) if q else (2500, 800)
     ctx.harness(['C10', 'recordcore', '-seed', str(ctx.seed), '-n', str(ncore), '-out', ctx.path('trace_core.ndjson')])
     ctx.harness(['C10', 'record', '-seed', str(ctx.seed + 7919), '-n', str(nfull), '-out', ctx.path('trace_full.ndjson')])
     rejects = ctx.validate_traces('Trace_Builtins', 'Trace_Builtins', 'trace_core.ndjson', label='trace-builtins-core',
